@@ -149,13 +149,20 @@ def run(ctx):
         # history: the answer must not depend on which bins were asked for before on the same object
         sh = fresh()
         seq = []
-        for step in range(3):
-            p = int(rng.integers(D))
-            scl = str(rng.choice(['log', 'linear', 'logicle']))
+        p_fixed = int(rng.integers(D))
+        for step in range(4):
+            # (the same channel asked again with other options is the interesting history: scale, bin count, logicle parameters)
+            p = p_fixed if rng.random() < 0.6 else int(rng.integers(D))
+            scl = str(rng.choice(['log', 'linear', 'logicle', 'logicle']))
             nbh = None if (rng.random() < 0.4 and max(spec['ranges']) <= 5000) else int(rng.integers(2, 100))
-            seq.append((p, nbh, scl))
-            o1 = core.attempt(lambda: sh.hist_bins(p, nbh, scl))
-            o2 = core.attempt(lambda: fresh().hist_bins(p, nbh, scl))
+            kwh = {}
+            if scl == 'logicle' and rng.random() < 0.5:
+                kwh = dict(T=float(rng.choice([1e4, 262144.0, 1e6])), M=float(rng.choice([4.5, 5.0])), W=float(rng.choice([0, 0.5, 1.0])))
+                if rng.random() < 0.5:
+                    kwh = {k_: kwh[k_] for k_ in list(kwh)[:int(rng.integers(1, 3))]}
+            seq.append((p, nbh, scl, kwh))
+            o1 = core.attempt(lambda: sh.hist_bins(p, nbh, scl, **kwh))
+            o2 = core.attempt(lambda: fresh().hist_bins(p, nbh, scl, **kwh))
             ctx.counters['chk:history'] += 1
             if not o1.raised and not o2.raised:
                 ctx.check(np.array_equal(np.asarray(o1.value), np.asarray(o2.value)), 'hist_bins:answer-depends-on-earlier-calls', cid,
